@@ -54,15 +54,22 @@ func builtinJSONReviveWalk(ctx builtinJSONParseContext, holder *object, name str
 				}
 			}
 		} else {
+			// Snapshot the keys first (ECMA 262 15.12.2 Walk step 3.b.i): the
+			// reviver results are applied while iterating, and deleting a property
+			// shifts the property order that enumerate ranges over.
+			var names []string
 			obj.enumerate(false, func(name string) bool {
+				names = append(names, name)
+				return true
+			})
+			for _, name := range names {
 				enumVal := builtinJSONReviveWalk(ctx, obj, name)
 				if enumVal.IsUndefined() {
 					obj.delete(name, false)
 				} else {
 					obj.defineProperty(name, enumVal, 0o111, false)
 				}
-				return true
-			})
+			}
 		}
 	}
 	return ctx.reviver.call(ctx.call.runtime, objectValue(holder), name, value)
